@@ -440,6 +440,53 @@ func shapedScenario(g *Gen, which int) Case {
 		t.dir(VB + "/export/generated")
 		t.link(VB+"/export/generated/b0", "/somewhere/else")
 		steps = []interface{}{cmd("probe"), cmd("mount", "b0"), cmd("probe"), umountAll(), cmd("probe")}
+	case 38, 39:
+		// two derived layers share one base, both mounted; one of them is busy.  umount -all
+		// unmounts the idle sibling and must then still find the base overlain by the busy one
+		// (38: the busy one sorts last, 39: first)
+		for _, l := range []glayer{{name: "b0", imports: imports}, {name: "d1", base: "b0", imports: imports},
+			{name: "d2", base: "b0", imports: imports}} {
+			genLayerTree(g, t, l, pf, false)
+		}
+		all := umountAll()
+		all["users"] = []interface{}{user(map[int]string{38: "d2", 39: "d1"}[which], 1, g.Pick("build", "build/usr"))}
+		steps = []interface{}{cmd("mount", "d1"), cmd("mount", "d2"), cmd("probe"), all, cmd("probe"), umountAll(), cmd("probe")}
+	case 34, 35, 36, 37:
+		// remove without -files of a layer that is not populated but holds user data in a place
+		// or under a name that is easy to overlook: (34) an incomplete derived layer (work
+		// directory cleared by hand) with a populated upper directory; (35, 36) a base layer
+		// without FHS directories whose only data is a file NAMED like one of the two files add
+		// creates, but somewhere else; (37) a derived layer on a parent that is not mountable,
+		// with root/.bashrc in its upper directory.  The data must survive (C09).
+		skel := func(name, base string) string {
+			lp := VB + "/layers/" + name
+			t.dir(lp)
+			t.file(lp+"/layerconfig", glayer{name: name, base: base, imports: imports}.config())
+			t.dir(lp + "/build")
+			return lp
+		}
+		switch which {
+		case 34:
+			genLayerTree(g, t, glayer{name: "b0", imports: imports}, pf, false)
+			lp := skel("d0", "b0")
+			t.file(lp+"/overlayfs/upperdir/etc/data5", "work of a week")
+			t.file(lp+"/overlayfs/upperdir/root/.bashrc", "alias ll='ls -l'")
+			steps = []interface{}{cmd("probe"), cmd("remove", "d0"), cmd("probe")}
+		case 35, 36:
+			lp := skel("b0", "")
+			if which == 35 {
+				t.file(lp+"/build/etc/skel/.bashrc", "# skeleton")
+			} else {
+				t.file(lp+"/build/home/u/layerconfig", "base other\n")
+			}
+			steps = []interface{}{cmd("probe"), cmd("remove", "b0"), cmd("probe")}
+		default:
+			skel("b0", "")
+			lp := skel("d0", "b0")
+			t.dir(lp + "/overlayfs/workdir")
+			t.file(lp+"/overlayfs/upperdir/root/.bashrc", "export EDITOR=vi")
+			steps = []interface{}{cmd("probe"), cmd("remove", "d0"), cmd("probe")}
+		}
 	default:
 		// export directory names that differ from the layer's own directory names, explicit
 		// export directives, then rename and remove
@@ -458,7 +505,7 @@ func shapedScenario(g *Gen, which int) Case {
 
 func init() {
 	register("scn-directed", func(g *Gen, tier string, emit func(Case)) {
-		for w := 0; w < 34; w++ {
+		for w := 0; w < 40; w++ {
 			emit(shapedScenario(g, w))
 		}
 		// a derived layer mounted, listed and unmounted (history 4), and the export-link history
